@@ -33,21 +33,21 @@ def jobs(pid, tier):
     q = tier == 'quick'
     if pid == 'C07':
         if q:
-            return [vrt('C07', [r'mx2_.*_r1', r'mxpool_.*'], bound=2, workers=2, ignore=[r'^mutex/fifo']),
+            return [vrt('C07', [r'mx2_.*_r1', r'mxpool_.*', r'mxown.*'], bound=2, workers=2, ignore=[r'^mutex/fifo']),
                     vrt('C07', [r'mx2_(co-co|co-bl)_(dis-dis|dtor-awt|awt-awt|dis-move)_r2'], bound=2, workers=4, ignore=[r'^mutex/fifo']),
                     vrt('C07', [r'mx3_f[012]_r[023]'], bound=2, workers=8, ignore=[r'^mutex/fifo'])]
         return [vrt('C07', [r'mx2_.*_r1'], unbounded=True, workers=4, ignore=[r'^mutex/fifo']),
-                vrt('C07', [r'mxpool_.*'], bound=3, workers=4, ignore=[r'^mutex/fifo']),
+                vrt('C07', [r'mxpool_.*', r'mxown.*'], bound=3, workers=4, ignore=[r'^mutex/fifo']),
                 vrt('C07', [r'mx2_.*_r2'], bound=3, workers=4, ignore=[r'^mutex/fifo']),
                 vrt('C07', [r'mx3_.*'], bound=3, workers=16, ignore=[r'^mutex/fifo']),
                 vrt('C07', [r'mx4_.*'], bound=2, workers=16, ignore=[r'^mutex/fifo']),
                 vrt('C07', [r'mx2_.*_r1'], bound=2, workers=4, ignore=[r'^mutex/fifo'], spurious=True)]
     if pid == 'C08':
         if q:
-            return [vrt('C07', [r'mx2_.*_r1', r'mxpool_.*'], bound=2, workers=2),
+            return [vrt('C07', [r'mx2_.*_r1', r'mxpool_.*', r'mxown.*'], bound=2, workers=2),
                     vrt('C07', [r'mx3_f[012]_r[0123]'], bound=2, workers=8)]
         return [vrt('C07', [r'mx2_.*_r1'], unbounded=True, workers=4),
-                vrt('C07', [r'mxpool_.*'], bound=3, workers=4),
+                vrt('C07', [r'mxpool_.*', r'mxown.*'], bound=3, workers=4),
                 vrt('C07', [r'mx3_.*'], bound=3, workers=16),
                 vrt('C07', [r'mx4_.*'], bound=2, workers=16),
                 vrt('C07', [r'mx2_.*_r1'], bound=2, workers=4, spurious=True)]
@@ -72,12 +72,12 @@ def jobs(pid, tier):
         if q:
             return [vrt('C01', [r'once_counted_(val-val|val-exc|exc-drop|val-mvdie)_(wait|coro|hasv)', r'once_(int|ref)_val-exc_wait'], bound=2, workers=2, **R),
                     vrt('C02', [r'wake1_.*_(val|exc|async)', r'wake2_(coro-poll|wait-cb|hasv-sync|coro-coro|cb-cb)_(val|exc|drop|async)'], bound=2, workers=2, **R),
-                    vrt('C07', [r'mx2_.*_(dis-dis|dtor-awt|awt-move|move-move)_r1', r'mx3_f[012]_r[03]', r'mxpool_.*'], bound=2, workers=4, **R),
-                    vrt('C09', [r'q_p1_c2_.*', r'q_p2_c1_(block|coro)', r'lq_l1_p2_.*'], bound=2, workers=4, **R),
+                    vrt('C07', [r'mx2_.*_(dis-dis|dtor-awt|awt-move|move-move)_r1', r'mx3_f[012]_r[03]', r'mxpool_.*', r'mxown_.*'], bound=2, workers=4, **R),
+                    vrt('C09', [r'q_p1_c2_.*', r'q_p2_c1_(block|coro)', r'lq_l1_p2_.*', r'lq_l1_unblock_.*'], bound=2, workers=4, **R),
                     vrt('C11', [r'pool_w[12]_(coawait|runfn|runfnbig|detached|detachedbig)_(stop|selfstop)', r'pool_w2_(coawait-runfn|runfnbig-detached)_stop',
                                  r'pool_w[12]_(coawait|runfn|detached)_racestop'], bound=2, workers=2, **R),
                     vrt('C12', [r'sch_(thread|pool)_(5-10|10-5)(_cancel0)?'], bound=2, workers=4, **R),
-                    vrt('C16', [r'pub1_.*', r'pub2_all_(coro-block|coro-poll)_pub-batch2-close'], bound=2, workers=4, **R),
+                    vrt('C16', [r'pub1_.*', r'pub2_all_(coro-block|coro-poll)_pub-batch2-close', r'pubmt1_.*', r'pubmt2_coro-coro'], bound=2, workers=4, **R),
                     vrt('C17', [r'sf1_.*', r'sf2_promfn_val_(wait-coro|coro-drop|copydrop-poll)_.*'], bound=2, workers=2, **R),
                     vrt('C19', [r'mtsafe_t2_.*'], bound=2, workers=4, **R),
                     vrt('C04', [r'async_.*_d[12](_throw)?'], bound=2, workers=2, **R),
@@ -91,7 +91,7 @@ def jobs(pid, tier):
                 vrt('C09', [r'q_p1_.*', r'q_p2_c1_.*', r'lq_.*'], bound=3, workers=8, **R),
                 vrt('C11', [r'pool_w[12]_(coawait|runfn|runfnbig|detached|detachedbig)(-(coawait|runfn|runfnbig|detached|detachedbig))?_(stop|dtor|selfstop|racestop)'], bound=2, workers=8, **R),
                 vrt('C12', [r'sch_.*'], bound=2, workers=8, **R),
-                vrt('C16', [r'pub1_.*', r'pub2_(?!.*poll-poll).*'], bound=2, workers=8, **R),
+                vrt('C16', [r'pub1_.*', r'pub2_(?!.*poll-poll).*', r'pubmt.*'], bound=2, workers=8, **R),
                 vrt('C17', [r'sf.*'], bound=2, workers=8, **R),
                 vrt('C19', [r'mtsafe_.*'], bound=3, workers=8, **R),
                 vrt('C04', [r'async_.*'], bound=3, workers=4, **R),
@@ -161,9 +161,9 @@ def jobs(pid, tier):
         return [seq('C12'), vrt('C12', [r'sch_.*'], bound=3, workers=8), vrt('C12', [r'sch_.*'], bound=2, workers=8, spurious=True)]
     if pid == 'C16':
         if q:
-            return [seq('C16'), vrt('C16', [r'pub1_.*'], bound=2, workers=2),
+            return [seq('C16'), vrt('C16', [r'pub1_.*', r'pubmt1_.*', r'pubmt2_coro-coro'], bound=2, workers=2),
                     vrt('C16', [r'pub2_all_(coro-block|coro-coro|block-poll)_pub-batch2-close', r'pub2_recent_coro-block_pub-pub-close'], bound=2, workers=8)]
-        return [seq('C16'), vrt('C16', [r'pub1_.*'], bound=3, workers=2), vrt('C16', [r'pub2_(?!.*poll-poll).*'], bound=2, workers=8)]
+        return [seq('C16'), vrt('C16', [r'pub1_.*', r'pubmt1_.*'], bound=3, workers=2), vrt('C16', [r'pub2_(?!.*poll-poll).*', r'pubmt2_.*'], bound=2, workers=8)]
     if pid == 'C06':
         return [seq('C06')]
     return []
